@@ -177,6 +177,10 @@ func runC09(r *Run, rng *Rng, thorough bool) {
 			r.FailSig("encode-valid", fmt.Sprintf("valid claims-set does not encode: %v", err), sig)
 			return
 		}
+		// the model's decoder on the library's bytes, against the library's decoder (struct state, getters, verdict)
+		if sig == "" && rng.Chance(50) {
+			r.Case(class+"/decode-own-encoding", false, "decv "+hx(b), decv(b).line)
+		}
 		c2, err := psa.DecodeClaimsFromCBOR(append([]byte{}, b...))
 		if err != nil {
 			r.FailSig("decode-own-encoding", fmt.Sprintf("the encoding of a valid claims-set is rejected by the decoder: %v", err), sig)
